@@ -1,0 +1,11 @@
+// Copyright 2026 Juan Pablo Tosso and the OWASP Coraza contributors
+// SPDX-License-Identifier: Apache-2.0
+
+//go:build !verif
+
+// Package verif holds verification-only fault-injection points; without the "verif" build tag
+// they are compiled out.
+package verif
+
+// Fault never injects anything in regular builds.
+func Fault(string) error { return nil }
